@@ -29,9 +29,12 @@ func gen(r *Rng, tier string, emit Emit) {
 	// section with an extended section header)
 	emit("P", "p_big_identity", N(r.U64()^0x51), N(0x00), N(0), N(1), N(1))
 	emit("P", "p_big_identity", N(r.U64()^0x52), N(0x08), N(33), N(0), N(2))
+	// ... followed / preceded by a file that carries a nested FFSv2 volume
+	emit("P", "p_big_identity", N(r.U64()^0x53), N(0x00), N(7), N(0), N(2), N(1))
+	emit("P", "p_big_identity", N(r.U64()^0x54), N(0x08), N(0), N(1), N(1), N(3))
 	if tier == "thorough" {
 		for k := uint64(0); k < 6; k++ {
-			emit("P", "p_big_identity", N(r.U64()^(0x60+k)), N(uint64(r.Pick(0, 0x08, 0x10, 0x18, 0x40))), N(uint64(r.Intn(5000))), N(uint64(r.Intn(2))), N(1+k%2))
+			emit("P", "p_big_identity", N(r.U64()^(0x60+k)), N(uint64(r.Pick(0, 0x08, 0x10, 0x18, 0x40))), N(uint64(r.Intn(5000))), N(uint64(r.Intn(2))), N(1+k%2), N(k%4))
 		}
 	}
 	for it := 0; it < n; it++ {
